@@ -79,13 +79,33 @@ function contentSizeProgram (rng, small) {
   return `function f(a) { 'use strict'; return a + ${lit(11)} }\n//# sourceMappingURL=${'m'.repeat(rng.pick([1, 300, 5000]))}.map`
 }
 
+// syntax that is valid in some dialect, stage-N proposal or future edition: the parser either refuses it (an error value) or
+// accepts it - and then the printer has to cope with the node. Always next to instrumented code, so that an accepted file is printed.
+const PROPOSALS = [
+  "export v from 'mod'", "export v, { w } from 'mod'", "export v, * as ns from 'mod'", "export default from 'mod'", "export * as ns from 'mod'", "export { default } from 'mod'", "export { x as 'string name' } from 'mod'",
+  "import defer * as d from 'mod'", "import source s from 'mod'", "import j from './j.json' with { type: 'json' }", "import j2 from './j.json' assert { type: 'json' }", "import x, * as y from 'mod'", "import { 'string name' as z } from 'mod'",
+  '@dec class A {}', '@dec export class B {}', 'export @dec class C {}', 'class D { @dec m() {} @dec static accessor p = 1; @(foo.bar()) #q = 2 }', 'class E { accessor x = a + b; static accessor #y }',
+  'using res = getResource()', 'await using ares = getAsync()', 'for (using x of xs) {}', 'const v = do { 1 }', 'const p = a |> f', 'const q = a?.[b]?.(c) ?? d', 'const r = #{ a: 1 }', 'const t = #[1, 2]',
+  'function g() { return function.sent }', 'const b = 1n ** 2n', 'label: function lf() {}', 'if (a) function decl() {}', 'const re = /[\\p{L}--[a-z]]/v', 'const u = a ??= b', 'throw.expr', 'const th = () => throw new Error()',
+  'enum E1 { A, B }', 'type T = string', 'let x: number = 1', 'function gen<T>(a: T) { return a }', 'abstract class F {}', 'declare const dc: number', 'namespace NS {}', 'const as1 = a as string', 'const sat = a satisfies B',
+  'module M {}', 'async function* ag() { for await (const x of y) yield* x }', 'class G { static { await_: 1 } }', 'new.target', 'import.meta.url', "import('mod').then(m => m)", 'import.source("mod")', 'super.x',
+  '<div>{a + b}</div>', 'const jsx = <A b={c + d} />', '<!-- html comment', '--> html close', '#!/usr/bin/env node', 'yield a + b', 'await a + b', 'let async; async\nfunction af() {}', 'var let_ = 1; let\n[a] = [1]'
+]
+function proposalProgram (rng) {
+  const parts = []
+  for (let i = 0, n = rng.range(1, 3); i < n; i++) parts.push(rng.pick(PROPOSALS))
+  const body = rng.pick(['function f(a, b) { return a + b }', 'export function h(a) { return a.trim() + `${a}` }', 'class K { m(a) { return a?.trim().concat(a) } }', '{ let s = x; s += y() }'])
+  return rng.bool(0.5) ? parts.join('\n') + '\n' + body + '\n' : body + '\n' + parts.join('\n') + '\n'
+}
+
 function genRequest (rng, files, small) {
-  const kind = rng.weighted([[5, 'mutated'], [1.5, 'random-text'], [1, 'valid'], [1, 'deep'], [3, 'map-ref'], [0.5, 'big'], [0.8, 'content-size']])
+  const kind = rng.weighted([[5, 'mutated'], [1.5, 'random-text'], [1, 'valid'], [1, 'deep'], [3, 'map-ref'], [0.5, 'big'], [0.8, 'content-size'], [0.8, 'proposal-syntax']])
   let code
   if (kind === 'mutated') code = G.mutate(baseProgram(rng, files), rng)
   else if (kind === 'random-text') code = G.randomText(rng)
   else if (kind === 'deep') code = G.deepNesting(rng)
   else if (kind === 'content-size') code = contentSizeProgram(rng, small)
+  else if (kind === 'proposal-syntax') code = proposalProgram(rng)
   else if (kind === 'big') code = ('function f' + rng.int(9) + '(a, b) { return a + b.trim() + `${a}` }\n').repeat(rng.pick([500, 2000]))
   else code = baseProgram(rng, files)
   let file = rng.bool(0.35) ? rng.pick(G.FILE_NAMES) : '/srv/app/lib/mod' + rng.int(50) + '.js'
@@ -173,7 +193,7 @@ function judge (req, resp, profile, rep, bump) {
 module.exports = {
   id: 'C13',
   level: 'fault_enumeration',
-  rule: 'requests = hostile text (token-level mutations of corpus/catalogue/random programs, random printable/UTF-8 text, dictionary soup, nesting up to depth 64, 100 KB files) x hostile file names (empty, "/", no directory, trailing slash, non-ASCII, 5000 chars) x 9 ordinary configurations plus randomly drawn hostile ones (hook / method / prefix names that are empty, not identifiers, reserved words, 5000 characters, non-ASCII, duplicates; odd verbosity spellings) x source-map references (data URLs valid/invalid/empty/index map, absolute, relative, junk) whose reader outcome is drawn from the fault plan: content valid / index map / truncated / empty / invalid JSON / invalid VLQ / non-UTF-8 / NotFound / PermissionDenied / IsADirectory / Other / Interrupted / failure after k bytes / generated 2 MB map, with parent() = node-dirname | std | none. Each request runs behind catch_unwind in rwharness; monitors: panic (message+location), process death (signal, sanitizer report), watchdog escalated to a 60 s isolated re-run (bounded-progress restatement of never-hangs), error without diagnostic. Profiles: release (verdict), valgrind memcheck (sample), and in thorough debug + AddressSanitizer builds. distinct_nontrivial = distinct requests answered.',
+  rule: 'requests = hostile text (token-level mutations of corpus/catalogue/random programs, random printable/UTF-8 text, dictionary soup, nesting up to depth 64, 100 KB files) x hostile file names (empty, "/", no directory, trailing slash, non-ASCII, 5000 chars) x 9 ordinary configurations plus randomly drawn hostile ones (hook / method / prefix names that are empty, not identifiers, reserved words, 5000 characters, non-ASCII, duplicates; odd verbosity spellings) x source-map references (data URLs valid/invalid/empty/index map, absolute, relative, junk) whose reader outcome is drawn from the fault plan: content valid / index map / truncated / empty / invalid JSON / invalid VLQ / non-UTF-8 / NotFound / PermissionDenied / IsADirectory / Other / Interrupted / failure after k bytes / generated 2 MB map, with parent() = node-dirname | std | none. Each request runs behind catch_unwind in rwharness; monitors: panic (message+location), process death (signal, sanitizer report), watchdog escalated to a 60 s isolated re-run (bounded-progress restatement of never-hangs), error without diagnostic. Profiles: release (verdict), valgrind memcheck (sample), and in thorough debug + AddressSanitizer builds. distinct_nontrivial = distinct requests answered. Proposal / dialect syntax (export-default-from, decorators and auto-accessors, import attributes and phases, `using`, do-expressions, pipeline, records, throw expressions, TypeScript and JSX fragments, html-like comments, hashbang, contextual keywords) next to instrumented code: whatever the parser accepts, the printer must cope with.',
   assumptions: [
     'never loops is decided only in bounded form: a request (<=256 KB) must return within 60 s when re-run alone',
     'nesting depth is capped at 64 by the generators (exhaustion by nesting depth is out of scope per the statement)',
